@@ -12,6 +12,7 @@ import (
 	"crypto"
 	"crypto/ecdsa"
 	"crypto/ed25519"
+	crand "crypto/rand"
 	"crypto/rsa"
 	"crypto/tls"
 	"crypto/x509"
@@ -109,6 +110,54 @@ func c19StartAgent(sock string) (*c19Agent, net.Listener, error) {
 		}
 	}()
 	return a, l, nil
+}
+
+// c19AgeAgent replaces every certificate the agent holds by an expired copy (same key, same label, validity moved two
+// days into the past, re-signed with the CA key) and drops entry lifetimes: the state of an agent that ignores key
+// lifetimes, one day later.
+func c19AgeAgent(a *c19Agent) (int, error) {
+	blk, _ := pem.Decode(verifDFixture("ca_rsa2048"))
+	if blk == nil {
+		return 0, fmt.Errorf("CA fixture")
+	}
+	var caKey interface{}
+	var err error
+	if caKey, err = x509.ParsePKCS1PrivateKey(blk.Bytes); err != nil {
+		if caKey, err = x509.ParsePKCS8PrivateKey(blk.Bytes); err != nil {
+			return 0, err
+		}
+	}
+	caSigner, err := ssh.NewSignerFromKey(caKey)
+	if err != nil {
+		return 0, err
+	}
+	a.mu.Lock()
+	held := append([]agent.AddedKey{}, a.added...)
+	a.mu.Unlock()
+	// keep only the latest entry per label (what the keyring holds now)
+	latest := map[string]agent.AddedKey{}
+	for _, k := range held {
+		if k.Certificate != nil {
+			latest[k.Comment] = k
+		}
+	}
+	if err := a.Agent.RemoveAll(); err != nil {
+		return 0, err
+	}
+	n := 0
+	for _, k := range latest {
+		c := *k.Certificate
+		c.ValidAfter = uint64(time.Now().Add(-72 * time.Hour).Unix())
+		c.ValidBefore = uint64(time.Now().Add(-48 * time.Hour).Unix())
+		if err := c.SignCert(crand.Reader, caSigner); err != nil {
+			return n, err
+		}
+		if err := a.Agent.Add(agent.AddedKey{PrivateKey: k.PrivateKey, Certificate: &c, Comment: k.Comment}); err != nil {
+			return n, err
+		}
+		n++
+	}
+	return n, nil
 }
 
 // needles: every spelling of private material we look for on the wire
@@ -238,6 +287,7 @@ func TestVerifC19(t *testing.T) {
 	rep.Floor("public_halves_found_on_wire", 20)
 	rep.Floor("private_needles_searched", 50)
 	rep.Floor("agent_runs_checked", 3)
+	rep.Floor("agent_certificates_aged_between_runs", 2)
 	rep.Floor("file_modes_checked", 6)
 }
 
@@ -357,6 +407,15 @@ func c19OneConfig(t *testing.T, rep *verifReport, d *verifDaemon, logger *debugl
 		if err != nil {
 			run.Err = err.Error()
 			break
+		}
+		if ag != nil && iter == 0 && iters > 1 && pref != "rsa" { // (the rsa run keeps the still valid certificate of the first run)
+			// between the two runs a day passes on an agent that does not expire its entries: what it holds under
+			// these labels is now an EXPIRED certificate; the second run must still replace it
+			if n, err := c19AgeAgent(ag); err != nil {
+				rep.Obs("could not age the agent's certificates: %v", err)
+			} else {
+				rep.Count("agent_certificates_aged_between_runs", n)
+			}
 		}
 	}
 	rep.Count("wire_requests_recorded", len(allReqs))
@@ -490,6 +549,13 @@ func c19OneConfig(t *testing.T, rep *verifReport, d *verifDaemon, logger *debugl
 			labels[k.Comment]++
 		}
 		rep.Count("agent_runs_checked", 1)
+		for _, k := range keys {
+			if pk, err := ssh.ParsePublicKey(k.Blob); err == nil {
+				if c, ok := pk.(*ssh.Certificate); ok && iters > 1 && int64(c.ValidBefore) < time.Now().Unix() {
+					rep.Violate("C19/agent-keeps-expired-certificate/"+k.Comment, "after the second run the agent still holds the expired certificate of the earlier run under label "+k.Comment, run)
+				}
+			}
+		}
 		for l, n := range labels {
 			if n != 1 {
 				rep.Violate("C19/agent-duplicates/"+l, fmt.Sprintf("after two runs the agent holds %d certificates with label %s", n, l), run)
